@@ -194,6 +194,7 @@ func (c *comp) rebuild(plan *simkit.Plan) {
 		os.Mkdir(r, 0o755)
 	}
 	c.d.stamp = 1_000_000_000
+	c.d.stampNanos = 0
 	for _, op := range plan.Ops {
 		if op.Actor == "init" {
 			c.d.userOp(op)
